@@ -22,6 +22,7 @@ package hash
 //@   ensures glFits(fixedPrefix, glSuffix(suffix), maxLength) ==> res == fixedPrefix + glSuffix(suffix)
 //@   ensures !glFits(fixedPrefix, glSuffix(suffix), maxLength) ==> len(glHash) == 43
 //@   ensures res == glName(fixedPrefix, suffix, maxLength, glHash)
+//@   assigns glHash
 
 //@ -- The name as a function of (prefix, suffix, limit) and the hash text of the suffix.
 //@ spec func glKeep(max int, p string) int = max - 1 - len(p) < 43 ? max - 1 - len(p) : 43
